@@ -277,7 +277,8 @@ fn one_case(seed: u64, i: u64) -> CaseOut {
                         "final registers/PC/CC {:04X?} x{:04X} {:03b}, fresh run {:04X?} x{:04X} {:03b}",
                         sess.fin.reg, sess.fin.pc, sess.fin.cc, pfs.reg, pfs.pc, pfs.cc
                     ));
-                } else if hash_words(&mem[..]) != pfs.mem_hash {
+                } else if !cfg!(miri) && hash_words(&mem[..]) != pfs.mem_hash {
+                    // (under Miri the recorded diffs only cover address windows, see dbgmon::diff_mem)
                     why = Some("final memory differs from a fresh run".to_string());
                 }
                 if let Some(w) = why {
